@@ -229,6 +229,21 @@ def _r4(model, res, c):
     res.analysed['raise sites of shared exception instances'] = len(sites)
     for k, m, n, what in sites:
         res.ob('R4', fmt(k), 'raise site: %s' % what, True, 'requires every catching handler to reset the traceback')
+        # raised while another exception is being handled, the shared instance also gets __context__ = that exception (with its
+        # traceback and frames); nothing resets __context__
+        par = m.parent(n)
+        inside = None
+        while par is not None and not isinstance(par, (ast.FunctionDef, ast.Lambda, ast.ClassDef, ast.Module)):
+            if isinstance(par, ast.ExceptHandler):
+                inside = par
+                break
+            par = m.parent(par)
+        res.ob('R4', fmt(k), 'raise site %s is not inside an exception handler' % what, inside is None)
+        if inside is not None:
+            res.violation('R4', '%s:%s:singleton-raised-in-handler' % k, m.where(n),
+                          'the shared exception instance %s is raised inside an `except` block: python stores the exception being handled '
+                          '(with its traceback, frames and their locals - host values, the parser) in its __context__, which no handler '
+                          'resets; the process-global object keeps the whole evaluation alive' % what, func=k[1])
     if not sites:
         res.ob('R4', 'package', 'no reachable raise of a shared exception instance', True)
         return
